@@ -11,6 +11,7 @@ import (
 	"verif/lib/enum"
 	"verif/lib/maph"
 	"verif/lib/seqmc"
+	"verif/lib/spell"
 )
 
 func main() {
@@ -24,6 +25,19 @@ func main() {
 	if !res.Exhaustive {
 		r.MarkCapped()
 	}
+	// key types whose keys have several ==-equal spellings (+0.0/-0.0, equal strings in different
+	// memory, interfaces / structs / arrays holding them), pointers, int8: the same search over 2 keys
+	run := func(cfg seqmc.Config) seqmc.Result { return seqmc.Explore(r, cfg) }
+	typedStates := 0
+	typedStates += maph.ExploreTyped(r, run, spell.Float64).States
+	typedStates += maph.ExploreTyped(r, run, spell.String).States
+	typedStates += maph.ExploreTyped(r, run, spell.Any).States
+	typedStates += maph.ExploreTyped(r, run, spell.Struct).States
+	typedStates += maph.ExploreTyped(r, run, spell.Array).States
+	typedStates += maph.ExploreTyped(r, run, spell.Complex).States
+	typedStates += maph.ExploreTyped(r, run, spell.Pointers).States
+	typedStates += maph.ExploreTyped(r, run, spell.Int8).States
+	r.Set("key_type_states", typedStates)
 	// Large-map family: scripted single-goroutine histories over 5..200 keys (promotion thresholds
 	// that depend on the size of the dirty map, tombstones left behind in a large read map,
 	// re-creation of the dirty map), compared with map[K]V after every phase and at the end.
